@@ -313,10 +313,10 @@ def badcall_jobs(prop, tier, seed):
     rng = random.Random(seed * 1000003 + 16)
     J = []
     excluded = 0
-    for cfg in ("base", "dbg"):
+    for cfg in ("base", "dbg", "pc"):
         r = random.Random(rng.random())
         scen = small_pool_scenarios(r, tier) + stack_scenarios(r, tier) + block_scenarios(r, tier)
-        if cfg == "dbg":                                   # the only configuration with the double-free check
+        if cfg in ("dbg", "pc"):                           # the configurations with the double-free check
             scen += double_free_scenarios(r, tier)
         if EXCLUDE_F18_SHAPE:
             kept = [(h, c) for h, c in scen if not is_f18_shape(h, c)]
@@ -328,12 +328,12 @@ def badcall_jobs(prop, tier, seed):
 
 
 def valid_history_jobs(prop, tier, seed):
-    """the negative side: valid histories of every stateful allocator in base and dbg; SeqTrace flags
+    """the negative side: valid histories of every stateful allocator in base, dbg and pc (checks on, assertions and fill off); SeqTrace flags
     any invalid-pointer report (C16/ValidReleaseNeverReported) and any crash"""
     rng = random.Random(seed * 1000003 + 1600)
     s = 1.0 if tier == "quick" else 10.0
     J = []
-    for cfg in ("base", "dbg"):
+    for cfg in ("base", "dbg", "pc"):
         r = random.Random(rng.random())
         execs = plans._batch(r, s, [(8, plans.pool_exec(n=70)), (6, plans.coll_exec(n=70)), (6, plans.stack_exec(n=70)),
                                     (3, plans.stack_replay_exec()), (3, plans.iter_exec(n=40)),
